@@ -450,7 +450,7 @@ fn route_outcome(c: &RouteCase) -> Result<Option<Discrepancy>, String> {
         let warm_route = |router: &GossipRouter| {
             let me = ReplicaId::new(c.sender);
             let c_batch_len = c.batch.len();
-            let ds: Vec<ReplicationDelta> = c.batch.iter().enumerate().map(|(i, k)| ReplicationDelta::new(k.clone(), ReplicatedValue::with_value(payload_for(c_batch_len, i), LamportClock { time: i as u64, replica_id: me }), me)).collect();
+            let ds: Vec<ReplicationDelta> = c.batch.iter().enumerate().map(|(i, k)| ReplicationDelta::new(k.clone(), ReplicatedValue::with_value(payload_for(c_batch_len, i), LamportClock { time: i as u64, replica_id: me }), source_for(i, me))).collect();
             let _ = router.route_deltas(ds);
         };
         if warm {
@@ -477,7 +477,7 @@ fn route_outcome(c: &RouteCase) -> Result<Option<Discrepancy>, String> {
         }
         // the Lamport time carries the delta's index in the batch
         let c_batch_len = c.batch.len();
-        let mk = |(i, k): (usize, &String)| ReplicationDelta::new(k.clone(), ReplicatedValue::with_value(payload_for(c_batch_len, i), LamportClock { time: i as u64, replica_id: me }), me);
+        let mk = |(i, k): (usize, &String)| ReplicationDelta::new(k.clone(), ReplicatedValue::with_value(payload_for(c_batch_len, i), LamportClock { time: i as u64, replica_id: me }), source_for(i, me));
         let deltas: Vec<ReplicationDelta> = c.batch.iter().enumerate().map(mk).collect();
         // delta index -> targets it was handed to (with multiplicity)
         let mut got: Vec<Vec<u64>> = vec![vec![]; deltas.len()];
@@ -607,6 +607,17 @@ fn payload_for(batch_len: usize, i: usize) -> SDS {
         SDS::from_str(&"p".repeat(2048 + (i % 7) * 1000))
     } else {
         SDS::from_str("v")
+    }
+}
+
+/// Who produced the i-th delta of a batch: the sender itself, except every fourth one, which the sender merely forwards for
+/// another replica (hinted hand-off, repair of an owner that came back empty). Routing is about the key's owners and the
+/// sender; who wrote the update first does not enter into it.
+fn source_for(i: usize, me: ReplicaId) -> ReplicaId {
+    if i % 4 == 3 {
+        ReplicaId::new(1 + (i as u64 / 4) % 6)
+    } else {
+        me
     }
 }
 
@@ -913,7 +924,7 @@ fn route_under_churn(rep: &mut Report, rng: &mut Rng, cfg: &Cfg, keys: &[String]
     let rounds = 150;
     for _ in 0..rounds {
         let c_batch_len = batch.len();
-        let deltas: Vec<ReplicationDelta> = batch.iter().enumerate().map(|(i, k)| ReplicationDelta::new(k.clone(), ReplicatedValue::with_value(payload_for(c_batch_len, i), LamportClock { time: i as u64, replica_id: me }), me)).collect();
+        let deltas: Vec<ReplicationDelta> = batch.iter().enumerate().map(|(i, k)| ReplicationDelta::new(k.clone(), ReplicatedValue::with_value(payload_for(c_batch_len, i), LamportClock { time: i as u64, replica_id: me }), source_for(i, me))).collect();
         let table = router.route_deltas(deltas);
         let mut got: Vec<BTreeSet<u64>> = vec![BTreeSet::new(); batch.len()];
         for (t, ds) in table.iter() {
